@@ -174,7 +174,43 @@ def check_q3(ctx) -> None:
         ctx.bad('Q3', f'main/extra-write:{norm(st)[:50]}', f'{main.module.rel}:{st.lineno}',
                 'outputs_result is modified outside the six statistic assignments: text and JSON may differ')
     # rows parsed for statistics: every non-empty row, output columns only
-    ctx.ok('Q3', 'main/rows-parsed', f'{main.module.rel}:{main.node.lineno}', 'results <- float() of each row before ", ("')
+    check_rows_container(ctx, main)
+
+
+def check_rows_container(ctx, main) -> None:
+    """The array the statistics are reduced over holds exactly the parsed rows: it starts empty and grows by one append per
+    parsed line, or - when pre-allocated - is cut to the number of rows stored before the first reducer reads it."""
+    rel = main.module.rel
+    defs = [st for st in ast.walk(main.node) if isinstance(st, ast.Assign) and norm(st.targets[0]) == 'results']
+    ctx.require(defs, 'main: no definition of `results` found (anchor vanished)')
+    first = min(defs, key=lambda st: st.lineno)
+    reducers = [st for st in main.node.body if isinstance(st, ast.Assign) and isinstance(st.value, ast.Call) and
+                (dotted_name(st.value.func) or '').startswith('np.') and st.value.args and norm(st.value.args[0]) == 'results']
+    ctx.require(reducers, 'main: no reducer over `results` found (anchor vanished)')
+    first_red = min(r.lineno for r in reducers)
+    appends = [c for c in calls_in(main.node) if isinstance(c.func, ast.Attribute) and c.func.attr == 'append' and norm(c.func.value) == 'results']
+    stores = [st for st in ast.walk(main.node) if isinstance(st, ast.Assign) and isinstance(st.targets[0], ast.Subscript) and
+              norm(st.targets[0].value) == 'results']
+    empty = isinstance(first.value, ast.List) and not first.value.elts
+    key = 'main/statistics-over-parsed-rows-only'
+    where = f'{rel}:{first.lineno}'
+    if empty and not stores and len(defs) == 1:
+        ok = len(appends) >= 1 and all('float' in norm(c.args[0]) for c in appends)
+        ctx.check(ok, 'Q3', key, where, f'`results` starts empty but is not filled by appending the parsed floats of each row '
+                                        f'({[norm(c)[:60] for c in appends]})', fact='starts empty, one append of parsed floats per row')
+        return
+    # pre-allocated / indexed container: must be cut to the stored count before the reducers
+    trims = [st for st in defs if st is not first and st.lineno < first_red and isinstance(st.value, ast.Subscript) and
+             norm(st.value.value) == 'results' and isinstance(st.value.slice, ast.Slice) and st.value.slice.lower is None and
+             st.value.slice.upper is not None]
+    counters = {norm(st.targets[0].slice) for st in stores}
+    ok = bool(trims) and any(norm(t.value.slice.upper) in counters or norm(t.value.slice.upper).startswith('len(') is False and
+                             norm(t.value.slice.upper) in {norm(a.target) for a in ast.walk(main.node) if isinstance(a, ast.AugAssign)}
+                             for t in trims)
+    ctx.check(ok, 'Q3', key, where,
+              f'`results` is created as `{norm(first.value)[:60]}` and filled by position; it is not cut to the number of rows actually '
+              f'stored before np.nanmin/... read it, so every iteration that produced no row contributes a row of filler values to the '
+              f'minimum, median, mean and standard deviation', fact='pre-allocated and trimmed to the stored count')
 
 
 def check_q4(ctx) -> None:
@@ -263,6 +299,45 @@ def check_q6(ctx) -> None:
                       'executor.map is not called with exactly one iterable of per-iteration argument lists')
 
 
+UNIQUE_SOURCES = ('TemporaryDirectory', 'mkdtemp', 'mkstemp', 'NamedTemporaryFile', 'uuid4', 'uuid1', 'token_hex')
+
+
+def check_q7(ctx) -> None:
+    """When the caller names no result file, the request's own default must be a location nobody else writes to: its path is built
+    from a fresh unique object (TemporaryDirectory, mkdtemp, uuid ...).  Rows are appended to that file by the workers and the
+    summary is computed from it, so a shared default mixes the rows of different runs."""
+    repo = ctx.repo
+    ci = repo.cls('MonteCarloRequest')
+    init = ci.methods.get('__init__')
+    ctx.require(init is not None, 'MonteCarloRequest.__init__ not found')
+    rel = init.module.rel
+    stores = [st for st in ast.walk(init.node) if isinstance(st, (ast.Assign, ast.AnnAssign)) and
+              norm(st.targets[0] if isinstance(st, ast.Assign) else st.target) == 'self.output_file' and st.value is not None]
+    defaults = [st for st in stores if norm(st.value) != 'output_file']
+    ctx.floor('Q7', len(defaults), 1, 'default result locations')
+    assigns = {}
+    for st in ast.walk(init.node):
+        if isinstance(st, (ast.Assign, ast.AnnAssign)) and st.value is not None:
+            assigns.setdefault(norm(st.targets[0] if isinstance(st, ast.Assign) else st.target), []).append(st.value)
+    for st in defaults:
+        # transitive sources of the default path expression
+        seen, todo, unique = set(), [st.value], False
+        while todo:
+            e = todo.pop()
+            for n in ast.walk(e):
+                if isinstance(n, ast.Call) and ((dotted_name(n.func) or '').split('.')[-1] in UNIQUE_SOURCES or
+                                                (isinstance(n.func, ast.Attribute) and n.func.attr in UNIQUE_SOURCES)):
+                    unique = True
+                d = dotted_name(n) if isinstance(n, (ast.Name, ast.Attribute)) else None
+                if d and d in assigns and d not in seen:
+                    seen.add(d)
+                    todo.extend(assigns[d])
+        ctx.check(unique, 'Q7', 'MonteCarloRequest/default-result-file-unique-per-request', f'{rel}:{st.lineno}',
+                  f'the default result file `{norm(st.value)[:90]}` does not derive from a per-request unique location (TemporaryDirectory, '
+                  f'mkdtemp, uuid ...): two runs that omit output_file append their rows to one file, so each result contains foreign '
+                  f'rows and statistics over the mixture', fact='derived from a per-request unique temporary location')
+
+
 def run(ctx) -> None:
     ctx.rule('Q6', 'each iteration is its own pool task (no chunking), so a failing iteration affects only its own row')
     ctx.rule('Q1', 'each requested output contributes exactly one token to the row on every path; header and row iterate the '
@@ -273,7 +348,9 @@ def run(ctx) -> None:
     ctx.rule('Q4', 'iterations share no mutable state: the task never mutates objects reachable from the shared pass_list and '
                    'uses uniquely named temp files')
     ctx.rule('Q5', 'the sampled values recorded in the row are the ones appended to the file that is simulated')
+    ctx.rule('Q7', 'the default result file of a request is unique to it (rows of different runs never share a file by default)')
     check_q1(ctx)
+    check_q7(ctx)
     check_q2(ctx)
     check_q3(ctx)
     check_q4(ctx)
